@@ -20,10 +20,11 @@ const (
 	StorePlain StoreKind = iota
 	StoreMonotonic
 	StoreCommitTracking
+	StoreInmem // the library's own InmemStore behind the fault/observation hooks
 )
 
 func (k StoreKind) String() string {
-	return [...]string{"plain", "monotonic", "committrack"}[k]
+	return [...]string{"plain", "monotonic", "committrack", "inmem"}[k]
 }
 
 type Fault int
@@ -407,4 +408,156 @@ func (s *VSnap) Newest() *snapRec {
 		}
 	}
 	return nil
+}
+
+// ---------------------------------------------------------------------------
+// NodeStore: what the world and the monitors need from a server's durable log/stable store.
+
+type NodeStore interface {
+	raft.StableStore
+	LogStore() raft.LogStore
+	Peek(i uint64) *raft.Log
+	Indexes() []uint64
+	Hi() uint64
+	U64(key string) uint64
+	Bytes(key string) []byte
+	onRestart()
+	setHooks(h StoreHooks)
+}
+
+func (s *VStore) Hi() uint64              { return s.hi }
+func (s *VStore) U64(key string) uint64   { return s.kvU[key] }
+func (s *VStore) Bytes(key string) []byte { return s.kv[key] }
+func (s *VStore) setHooks(h StoreHooks)   { s.hooks = h }
+
+// InmemAdapter puts the library's InmemStore behind the same hooks.
+type InmemAdapter struct {
+	node  int
+	in    *raft.InmemStore
+	hooks StoreHooks
+}
+
+func NewInmemAdapter(node int) *InmemAdapter {
+	return &InmemAdapter{node: node, in: raft.NewInmemStore()}
+}
+
+func (a *InmemAdapter) setHooks(h StoreHooks) { a.hooks = h }
+func (a *InmemAdapter) onRestart()            {}
+func (a *InmemAdapter) LogStore() raft.LogStore {
+	return inmemLog{a}
+}
+func (a *InmemAdapter) Hi() uint64 { h, _ := a.in.LastIndex(); return h }
+func (a *InmemAdapter) Peek(i uint64) *raft.Log {
+	var l raft.Log
+	if err := a.in.GetLog(i, &l); err != nil {
+		return nil
+	}
+	return &l
+}
+func (a *InmemAdapter) Indexes() []uint64 {
+	lo, _ := a.in.FirstIndex()
+	hi, _ := a.in.LastIndex()
+	var out []uint64
+	if hi-lo > 100000 {
+		return out // an absurd range is reported by DeleteRange's guard
+	}
+	for i := lo; i <= hi && i != 0; i++ {
+		if a.Peek(i) != nil {
+			out = append(out, i)
+		}
+	}
+	return out
+}
+func (a *InmemAdapter) U64(key string) uint64   { v, _ := a.in.GetUint64([]byte(key)); return v }
+func (a *InmemAdapter) Bytes(key string) []byte { v, _ := a.in.Get([]byte(key)); return v }
+
+func (a *InmemAdapter) fault(op string) Fault {
+	if a.hooks == nil {
+		return FaultNone
+	}
+	return a.hooks.Answer(a.node, op, true)
+}
+func (a *InmemAdapter) after(f Fault) {
+	if f == FaultCrashAfter && a.hooks != nil {
+		a.hooks.CrashNow(a.node)
+	}
+}
+func (a *InmemAdapter) Set(k, v []byte) error {
+	f := a.fault("Set(" + string(k) + ")")
+	if f == FaultError {
+		return errInjected
+	}
+	err := a.in.Set(k, append([]byte(nil), v...))
+	if a.hooks != nil {
+		a.hooks.OnStableSet(a.node, string(k), v)
+	}
+	a.after(f)
+	return err
+}
+func (a *InmemAdapter) Get(k []byte) ([]byte, error) { return a.in.Get(k) }
+func (a *InmemAdapter) SetUint64(k []byte, v uint64) error {
+	f := a.fault(fmt.Sprintf("SetUint64(%s,%d)", k, v))
+	if f == FaultError {
+		return errInjected
+	}
+	err := a.in.SetUint64(k, v)
+	if a.hooks != nil {
+		a.hooks.OnStableSet(a.node, string(k), []byte(fmt.Sprint(v)))
+	}
+	a.after(f)
+	return err
+}
+func (a *InmemAdapter) GetUint64(k []byte) (uint64, error) {
+	// InmemStore answers 0 for a missing key; raft treats both alike
+	return a.in.GetUint64(k)
+}
+
+type inmemLog struct{ a *InmemAdapter }
+
+func (l inmemLog) FirstIndex() (uint64, error)          { return l.a.in.FirstIndex() }
+func (l inmemLog) LastIndex() (uint64, error)           { return l.a.in.LastIndex() }
+func (l inmemLog) GetLog(i uint64, out *raft.Log) error { return l.a.in.GetLog(i, out) }
+func (l inmemLog) StoreLog(x *raft.Log) error           { return l.StoreLogs([]*raft.Log{x}) }
+func (l inmemLog) StoreLogs(ls []*raft.Log) error {
+	a := l.a
+	f := a.fault(fmt.Sprintf("StoreLogs[%d..%d]", ls[0].Index, ls[len(ls)-1].Index))
+	if f == FaultError {
+		return errInjected
+	}
+	cp := make([]*raft.Log, len(ls))
+	for i, x := range ls {
+		cp[i] = cloneLog(x)
+	}
+	err := a.in.StoreLogs(cp)
+	if a.hooks != nil {
+		a.hooks.OnStoreLogs(a.node, ls)
+	}
+	a.after(f)
+	return err
+}
+func (l inmemLog) DeleteRange(min, max uint64) error {
+	a := l.a
+	f := a.fault(fmt.Sprintf("DeleteRange[%d..%d]", min, max))
+	if f == FaultError {
+		return errInjected
+	}
+	if max >= min && max-min > 100000 {
+		// InmemStore would loop over the whole range
+		if a.hooks != nil {
+			a.hooks.OnDeleteRange(a.node, min, max, nil)
+		}
+		return fmt.Errorf("DeleteRange(%d,%d): absurd range refused by the harness", min, max)
+	}
+	var removed []*raft.Log
+	for i := min; i <= max; i++ {
+		if x := a.Peek(i); x != nil {
+			removed = append(removed, x)
+		}
+	}
+	err := a.in.DeleteRange(min, max)
+	if a.hooks != nil {
+		a.hooks.OnDeleteRange(a.node, min, max, removed)
+	}
+	a.after(f)
+	return err
 }
